@@ -12,12 +12,12 @@ from vp.props import c04
 PID = 'C17'
 LEVEL = 'exploration'
 RULE = ("seeded circuits (hierarchy 0-1, several nodes per type, edges) x parameter maps over node constants (one or several nodes "
-        "and variables per key) and edge weights x grids (equal-length or permuted, 2-6 rows; as dict or as pandas DataFrame with default, shuffled, offset or sorted integer index) x optional white-noise extrinsic input "
+        "and variables per key) and edge weights x grids (equal-length or permuted, 2-5 or 8-12 rows; as dict or as pandas DataFrame with default, shuffled, offset or sorted integer index) x optional white-noise extrinsic input "
         "x vectorize on/off; every column of the DataFrame returned by grid_search is compared with the reference trajectory of "
         "the circuit parametrised with the values that the RETURNED parameter table maps to that column's label; uncoupledness "
         "monitor: a second sweep with one row changed must leave all other columns bit-identical; non-trivial = >= 2 rows and "
         ">= 2 parameters; distinct = distinct (spec, grid) hash")
-DECIDING = ['columns_compared', 'rows_in_grids', 'dataframe_grids_nondefault_index', 'edge_param_keys', 'node_param_keys', 'multi_target_keys', 'permuted_grids',
+DECIDING = ['columns_compared', 'rows_in_grids', 'large_grids', 'dataframe_grids_nondefault_index', 'edge_param_keys', 'node_param_keys', 'multi_target_keys', 'permuted_grids',
             'input_sweeps', 'uncoupled_checks', 'vectorized_sweeps']
 ASSUMPTIONS = ['the returned parameter table (index = circuit labels) is the authority for which values belong to which column']
 CASE_TIMEOUT = 300
@@ -26,7 +26,9 @@ CASE_TIMEOUT = 300
 def plan(tier, seed):
     rnd = random.Random(f'{PID}-{seed}')
     n = 60 if tier == 'quick' else 1500
-    return [{'family': 'main', 'cseed': rnd.randrange(1 << 30)} for _ in range(n)]
+    cases = [{'family': 'main', 'cseed': rnd.randrange(1 << 30)} for _ in range(n)]
+    cases += [{'family': 'convergent', 'cseed': rnd.randrange(1 << 30)} for _ in range(16 if tier == 'quick' else 300)]
+    return cases
 
 
 def warmup(ctx):
@@ -39,12 +41,16 @@ def run_case(case, ctx):
     rnd = random.Random(case['cseed'])
     mech = {}
     res = {'features': [], 'risk': [], 'nontrivial': True}
+    # convergent circuits: in a sweep every circuit is one element of the merged groups, so "several sources into the single
+    # element of a target group" (the C04 finding for a circuit compiled on its own) becomes an ordinary many-to-one bundle
+    convergent = case.get('family') == 'convergent'
     for attempt in range(100):
-        base, feats, risk = c04.make_spec({'cseed': rnd.randrange(1 << 30)}, ctx['excluded'])
+        base, feats, risk = c04.make_spec({'cseed': rnd.randrange(1 << 30), 'want': 'vec_single_target_multi_source' if convergent else None},
+                                          ctx['excluded'])
         ref0 = RefModel(base)
         if max(n.count('/') for n in ref0.node_order) <= 1 and ref0.state_keys:
             break
-    vec = rnd.random() < 0.5
+    vec = rnd.random() < 0.5 or convergent
     if vec:
         for o in base['ops'].values():
             for v, d in o['vars'].items():
@@ -55,8 +61,12 @@ def run_case(case, ctx):
     # ---- parameter map ----------------------------------------------------------------------------------------------
     consts = [k for k in ref0.param_keys if ref0.kind[k] == 'const']
     param_map, grid = {}, {}
-    n_rows = rnd.randint(2, 5)
-    permute = rnd.random() < 0.3
+    # mostly small grids; sometimes 8-12 rows, so that the merged (vectorized) sweep crosses the size thresholds of the
+    # index-based / matrix edge forms (edges per circuit x rows >= 10)
+    n_rows = rnd.randint(2, 5) if rnd.random() < 0.7 and not convergent else rnd.randint(6, 12)
+    if n_rows >= 8:
+        mech['large_grids'] = 1
+    permute = rnd.random() < 0.3 and not convergent
     vals = gen.Vals(rnd)
     for o in base['ops'].values():
         for v, d in o['vars'].items():
@@ -221,7 +231,7 @@ def run_case(case, ctx):
             g2[k][0] = round(g2[k][0] * 1.37 + 0.11, 4)
             df2, table2 = sweep(g2)
             changed = [l for l in table.index if any(float(table[kk][l]) != float(table2[kk][l]) for kk in grid)]
-            if len(changed) != 1 or list(table.index) != list(table2.index):
+            if len(changed) != 1 or set(table.index) != set(table2.index):
                 raise observe.Mismatch(f"second sweep with one grid row changed: parameter tables differ in circuits {changed} "
                                        f"(labels {list(table.index)} / {list(table2.index)})")
             lab0 = changed[0]
